@@ -441,6 +441,13 @@ func (pc *PartitionContext) removeApplication(appID string) []*objects.Allocatio
 					zap.String("allocationKey", currentAllocationKey),
 					zap.String("nodeID", alloc.GetNodeID()))
 			}
+			// a placeholder that is being replaced on a different node: the replacement was already added to that
+			// node (and only to that node), it must go with the application
+			if release := alloc.GetRelease(); alloc.IsPlaceholder() && release != nil && release.GetNodeID() != alloc.GetNodeID() {
+				if otherNode := pc.GetNode(release.GetNodeID()); otherNode != nil {
+					otherNode.RemoveAllocation(release.GetAllocationKey())
+				}
+			}
 		}
 	}
 	return allocations
